@@ -111,7 +111,7 @@ func VerifHarness_C16_Spellings() {
 // positive; absent step => default step max(1s, floor((end-start)/250) s).
 func VerifHarness_C16_Step() {
 	t0 := vsymTimeNs(1700000000 * 1e9)
-	switch vsymChoice("form", 5) {
+	switch vsymChoice("form", 6) {
 	case 4: // plain seconds that are positive as a number but shorter than the clock's resolution
 		tiny := []string{"0.0000000001", "1e-10", "0.0000000009", "4e-324", "0.0", "-0"}
 		s := tiny[vsymChoice("tiny", len(tiny))]
@@ -128,6 +128,18 @@ func VerifHarness_C16_Step() {
 		d, err := parseStep(lokiapi.NewOptPrometheusDuration(lokiapi.PrometheusDuration(vsymDecimal(n))), t0, t0.Add(time.Hour))
 		vsymFinding("F14", err == nil && d <= 0, "a non-positive explicit --step (plain seconds) is accepted instead of rejected")
 		vsymAssert(err != nil || d <= 0 || int64(d) == n*1e9, "plain seconds: the step is that many seconds")
+	case 5: // plain seconds with a fraction: that many seconds, to the nanosecond
+		fracs := []struct {
+			s string
+			d time.Duration
+		}{{"0.5", 500 * time.Millisecond}, {"1.001", 1001 * time.Millisecond}, {"1.003", 1003 * time.Millisecond}, {"2.5", 2500 * time.Millisecond}, {"0.000000001", 1}, {"33.007", 33007 * time.Millisecond}}
+		fs := fracs[vsymChoice("fracstep", len(fracs))]
+		d, err := parseStep(lokiapi.NewOptPrometheusDuration(lokiapi.PrometheusDuration(fs.s)), t0, t0.Add(time.Hour))
+		if err == nil && d != fs.d && d == fs.d-1 {
+			vsymFinding("F35", true, "a --step in plain seconds with a fraction is truncated, not rounded, when converted to nanoseconds: --step=1.001 gives 1000999999 ns, one less than --step=1001ms")
+			return
+		}
+		vsymAssert(err == nil && d == fs.d, "plain seconds with a fraction: the step is that many seconds")
 	case 1: // Prometheus durations
 		specs := []struct {
 			s string
@@ -161,10 +173,17 @@ func VerifHarness_C16_Step() {
 			{100000000, 500*1e9 + 900000000, 2 * time.Second},     // 500.8s
 			{500000000, 750*1e9 + 400000000, 2 * time.Second},     // 749.9s
 			{1, 250 * 1e9, time.Second},                           // 249.999999999s
+			// ranges of years: one nanosecond below a multiple of 250 s must still floor
+			{-700000000*1e9 + 1, -600000000 * 1e9, 399999 * time.Second},   // 1e8 s - 1 ns
+			{-1700000000*1e9 + 1, -700000000 * 1e9, 3999999 * time.Second}, // 1e9 s - 1 ns
 		}
 		f := fr[vsymChoice("fraction", len(fr))]
 		base := int64(1700000000) * 1e9
 		d, err = parseStep(lokiapi.OptPrometheusDuration{}, vsymTimeNs(base+f.startNs), vsymTimeNs(base+f.endNs))
+		if err == nil && d == f.want+time.Second && f.want > 1000*time.Second {
+			vsymFinding("F34", true, "the default step of a range of years that ends a nanosecond below a multiple of 250 s is one second too large: end-start goes through float64 seconds, which rounds up, before the division by 250")
+			return
+		}
 		vsymAssert(err == nil && d == f.want, "the default step depends on end-start, sub-second parts included")
 	}
 	vsymReach("C16_step")
